@@ -242,12 +242,13 @@ class FakeSnowflakeCursor:
 
         sql = transformed.sql(dialect="duckdb")
 
-        if transformed.find(exp.Select) and (seed := transformed.args.get("seed")):
-            sql = f"SELECT setseed({seed}); {sql}"
-
         result_sql = None
 
         try:
+            if transformed.find(exp.Select) and (seed := transformed.args.get("seed")):
+                # set the seed with its own statement, so the query itself is what gets described later
+                self._duck_conn.execute(f"SELECT setseed({seed})")
+
             self._log_sql(sql, params)
             self._duck_conn.execute(sql, params)
         except duckdb.BinderException as e:
